@@ -6,6 +6,7 @@ import (
 	"go/types"
 	"math/big"
 	"os"
+	"strconv"
 	"runtime"
 	"runtime/debug"
 	"strings"
@@ -131,9 +132,17 @@ func derefType(t types.Type) types.Type {
 	panic("derefType: not a pointer: " + t.String())
 }
 
+var profileEvery = func() int {
+	n, _ := strconv.Atoi(os.Getenv("GOSYM_PROFILE"))
+	return n
+}()
+
 func visitInstr(fr *frame, instr ssa.Instruction) continuation {
 	p := fr.p
 	p.steps++
+	if profileEvery > 0 && p.steps%profileEvery == 0 {
+		fmt.Fprintf(os.Stderr, "[profile] steps=%d\n%s", p.steps, fr.stack())
+	}
 	if p.steps > p.eng.maxSteps {
 		abort("budget", "step budget exceeded (%d)", p.eng.maxSteps)
 	}
